@@ -78,7 +78,10 @@ impl<Wr: Write> HtmlSerializer<Wr> {
     pub fn new(writer: Wr, opts: SerializeOpts) -> Self {
         let html_name = match opts.traversal_scope {
             TraversalScope::IncludeNode | TraversalScope::ChildrenOnly(None) => None,
-            TraversalScope::ChildrenOnly(Some(ref n)) => Some(tagname(n)),
+            TraversalScope::ChildrenOnly(Some(ref n)) => match n.ns {
+                ns!(html) => Some(n.local.clone()),
+                _ => None,
+            },
         };
         HtmlSerializer {
             writer,
